@@ -133,6 +133,33 @@ fn hist(steps: &str) -> String {
                 _ = std::fs::remove_file(croot.join(path));
                 "ok".into()
             }
+            ["m", path] => {
+                // a DIRECTORY planted in the cache dir (`mkdir -p`); never makes the cache "dirty": whatever lies below or at
+                // an entry path that is not a regular file must not change any result
+                if !good_path(path) {
+                    return "bad-op".into();
+                }
+                match std::fs::create_dir_all(croot.join(path)) {
+                    Ok(()) => "ok".into(),
+                    Err(_) => "err".into(),
+                }
+            }
+            ["t", path, n] => {
+                // truncate a regular file of the cache dir to its first n bytes (no-op when it is shorter / not a file)
+                let Ok(n) = n.parse::<usize>() else { return "bad-op".into() };
+                if !good_path(path) {
+                    return "bad-op".into();
+                }
+                let p = croot.join(path);
+                if p.is_file() && !p.is_symlink() {
+                    let d = std::fs::read(&p).unwrap_or_default();
+                    if n < d.len() {
+                        dirty = [true; 5];
+                        _ = std::fs::write(&p, &d[..n]);
+                    }
+                }
+                "ok".into()
+            }
             ["f"] => layout(&croot),
             ["b"] => store_str(&be),
             [op, h, t, ..] if ["w", "d", "r", "p", "l"].contains(op) && ["c", "u"].contains(h) => {
